@@ -8,9 +8,9 @@ CHUNK = 50
 RULE = ("One evaluation = one seeded history of gwf invocations interleaved with scheduler transitions: every pinned state code of the phase (Slurm 20 short codes and 15 sacct names, SGE letters, LSF states), unpinned codes (no crash), foreign jobs whose ids are prefixes/extensions of ours, accounting on/off and lagging, sacct batch size 1-3 (function default patched and enforced by the sim), purged queue. Oracle: every status row whose job is live/failed/cancelled equals the simulated scheduler's view of the job id returned at the target's latest submission (live queue over accounting); finished/no-record rows must be a file-based decision; the tracked-jobs file maps each target to that id exactly.")
 PROFILE = dict(
     nontrivial_probes=['backend_state_rows'],
-    backends=["slurm", "slurm", "sge", "lsf"],
+    backends=["slurm", "slurm", "sge", "lsf", "local", "local"],
     weights=dict(status=4, run=3, start=3, finish=3, sched_cancel=0.5, set_code=1.5, set_unpinned=0.3, purge=1,
-                 acct_flush=1, foreign=0.7, modify_source=0.3, delete_output=0.3, advance=0.5),
+                 acct_flush=1, foreign=0.7, pool_restart=0.4, modify_source=0.3, delete_output=0.3, advance=0.5),
     p_job_ok=0.5,
 )
 make_scenario = make({"C08"}, PROFILE)
